@@ -528,6 +528,53 @@ PROPS = {
         level_note='partial: JSON equivalence and non-aliasing rest on encoding/json (assumed J1 / tested).',
         technique='Coq proofs parameterised by an abstract codec + differential runs through wsjson on real connection pairs',
     ),
+    'C09': dict(
+        suites=['life'],
+        rule='life suite: 30 scripted scenarios x both roles against an adversarial raw peer, wall-clock measured: Close against an echoing / silent / never-reading / flooding / mid-frame-stalling / half-closing peer; '
+             'CloseNow with a reader blocked, a writer blocked on a stalled transport, idle; Close while a reader is blocked; CloseRead active when a data message arrives (peer echoing and silent), when the peer closes, '
+             'followed by CloseNow; peer close / protocol error / transport failure / abandoned reader / abandoned writer / NetConn followed by Close; plus the C10 cancellation scenarios. Observed: result of every call, '
+             'duration of the measured call against the model\'s bound (Close: timeoutWriteClose + timeoutWaitCloseHandshake as regenerated from close.go; CloseNow and blocked calls: prompt) + 1.5 s slack, calls that stayed '
+             'blocked, time until CloseRead\'s context is done, library goroutines after the end, hook trace of arm events. non-trivial = every case; distinct = distinct scenario x role',
+        trusted=COMMON_TRUSTED + ['Model/Life.v hand-written from conn.go (timeoutLoop, mu, close), read.go / write.go (arming sections), close.go (Close, CloseNow, waitGoroutines), read.go CloseRead; '
+                                  'T1: closing the transport fails pending and later transport I/O (net.Conn contract); time is abstract in the model (context-done and timer events); wall-clock bounds are measured with slack'],
+        assumptions=['T1 (net.Conn.Close unblocks I/O)', 'fairness of the Go scheduler and timer delivery: every "promptly" is a step count in the model and a measured duration in the run',
+                     'freshness of CloseRead goroutine ids (fresh_cr) in the theorems that mention it — goroutine ids are fresh in Go'],
+        not_covered=['the wall-clock value of "promptly" (measured, not proved)', 'peer behaviours are environment events of the model; the byte-level stalls (every k) are sampled by the scenarios, not enumerated'],
+        level_text='Theorems over every program set and every schedule (= every peer behaviour): a done context of a blocked section (incl. both 5 s contexts of Close) lets the timeout goroutine close the connection, '
+                   'which fails the blocked I/O; once closed, every thread inside a call can step and needs at most 4 own steps to return or to reach waitGoroutines (the CloseRead goroutine included — its exit '
+                   'cancels the returned context — also when it closes the connection itself); waitGoroutines can proceed as soon as the goroutines exited. Tie: scenario results, durations and goroutine/hook observations.',
+        level_note='logical bound proved (step measure <= 4 after close; enabledness); wall-clock durations measured with 1.5 s slack: partial on real time.',
+        technique='Coq proofs (invariants over all schedules of an interleaving model of contexts, timeout goroutine, locks and goroutine joins) + timed scenario runs against an adversarial raw peer',
+    ),
+    'C10': dict(
+        suites=['life'],
+        rule='life suite (see C09); C10 scenarios: write / read / ping / fragmented read with interleaved ping / compressed read, each followed by the cancellation of its own context and a further round trip; '
+             'cancellation and deadline expiry during a blocked read and a blocked write; cancellation before the call. Observed: per-call results, whether the connection is closed afterwards (a later write), '
+             'latency of the cancelled call, and — from the hook trace — that every successful section re-armed the timeout goroutine with Background before releasing its lock and that arming happens under the side\'s lock. '
+             'non-trivial = every case',
+        trusted=COMMON_TRUSTED + ['Model/Life.v (see C09); the hook trace (build tag verif) ties the arm / re-arm discipline of the real sections to the model\'s LArm / LRearm steps'],
+        assumptions=['T1', 'freshness of CloseRead goroutine ids (fresh_cr)', 'a section in the model is one arm .. re-arm bracket; which library calls consist of which sections is tied by the hook trace only'],
+        not_covered=['latency of the failing call in wall-clock terms (measured)'],
+        level_text='Theorems over every program set and schedule: (during) a done context of a call inside its section makes the timeout goroutine close the connection and the call fail; (origin) a watched context other than '
+                   'Background always belongs to a call currently in its section or to a failed / failing one; (after success) when all calls that used c returned nil, no side is armed with c and cancelling c leaves the timeout '
+                   'goroutine without a step. Tie: per-call results and connection liveness in 30 scenarios x 2 roles + re-arm discipline read off the hook trace.',
+        level_note='full on the model; the model\'s section structure is tied to the code by hook traces and scenario outcomes.',
+        technique='Coq proofs (invariants over all schedules of the context / timeout-goroutine model) + scenario runs with hook-trace validation of the arm / re-arm discipline',
+    ),
+    'C20': dict(
+        suites=['life', 'sched'],
+        rule='life suite (see C09): after every scenario the connection is ended by Close / CloseNow and the goroutine profile is filtered to frames of nhooyr.io/websocket (timeoutLoop, CloseRead func) — any survivor after the '
+             'call returned is a leak; the context returned by CloseRead must be done. sched suite: 2-8 writer goroutines, pingers, closers: the hook trace\'s goroutine start/exit events are matched (every started library '
+             'goroutine exited before CloseNow returned). non-trivial = every case',
+        trusted=COMMON_TRUSTED + ['Model/Life.v (see C09); goroutine profiles (runtime/pprof) and the start/exit hooks as the observation of "has exited"'],
+        assumptions=['T1', 'freshness of CloseRead goroutine ids (fresh_cr) for the result form', 'the Go runtime reclaims a goroutine whose function returned (observed via the profile)'],
+        not_covered=['waitGoroutines giving up after 15 s (result RWaitTimeout) is excluded by hypothesis: it needs a transport whose Close does not unblock I/O (violates T1)'],
+        level_text='Theorems over every program set and schedule: from the step at which Close / CloseNow returns out of waitGoroutines onwards, the timeout goroutine has exited and the CloseRead goroutine that existed then has '
+                   'exited; in every state with a Close/CloseNow result the same holds except for a CloseRead goroutine started after the close, which exits in two own steps (C20_joined_refuted shows the exception is real, '
+                   'in model and library, and harmless). Tie: goroutine profiles and start/exit hook events after each history.',
+        level_note='full on the model given T1; that the runtime reclaims the goroutine is observed.',
+        technique='Coq proofs (join invariant over all schedules of the goroutine / waitGoroutines model) + goroutine-profile and hook-trace observation after every scenario and every sched history',
+    ),
     'C16': dict(
         suites=['close', 'wire-out', 'sched'],
         rule='close suite (local Close with every code class, peer-initiated Close frames valid and malformed — the latter answered by an error close that leaves the connection open — '
